@@ -158,7 +158,9 @@ struct Runner {
     return vd::withSnap(input, s);
   }
 
-  void run(const std::string &id, const Circuit &input, const vd::Params &prm) {
+  // wantDirect: also do the direct run (value()/hpwl() at every move); every case in the quick and search
+  // tiers, corpus and replays, every other pair of cases in the thorough tier (time budget)
+  void run(const std::string &id, const Circuit &input, const vd::Params &prm, bool wantDirect = true) {
     out.evaluations++;
     std::string inp = vd::caseString(input, prm);
     vd::Run r = vd::runCase(input, prm);
@@ -225,7 +227,9 @@ struct Runner {
       out.count("replayed_histories");
       // the direct run gives the real value() / hpwl() / orientation flag at every step; its move log
       // must be the one of the Circuit::placeDetailed run
-      DirectRun d = directRun(input, prm);
+      DirectRun d;
+      if (wantDirect) d = directRun(input, prm);
+      else d.status = "skipped";
       std::vector<std::string> movesOnly;
       for (const std::string &l : d.log)
         if (l.rfind("val ", 0) != 0 && l.rfind("hp ", 0) != 0) movesOnly.push_back(l);
@@ -359,7 +363,7 @@ int main(int argc, char **argv) {
     vc::GenOpts o = optsFor(k);
     Circuit c = vc::genCircuit(g, o);
     vd::Params p = vd::genParams(g, k % 2 == 1);
-    rn.run("h" + std::to_string(k), c, p);
+    rn.run("h" + std::to_string(k), c, p, !a.thorough() || ((k >> 1) & 1) == 0);
   }
   out.finish();
   return 0;
